@@ -110,6 +110,61 @@ func extractTransitions(c *Ctx, ts *TS) map[string][]TSite {
 			out[SSAFuncName(fn)] = append(out[SSAFuncName(fn)], sites...)
 		}
 	}
+	// a status change moved into a private helper that has one call site and is handed the task
+	// (r.taskFailed(t, err), r.startRunning(t)) belongs to the function calling it: analysed with
+	// the status set the caller has at the call, and attributed to the caller
+	reviewed := map[string]bool{}
+	for _, e := range c01Table {
+		reviewed[e.fn] = true
+	}
+	var names []string
+	for n := range out {
+		names = append(names, n)
+	}
+	sort.Strings(names)
+	for _, n := range names {
+		if reviewed[n] || len(out[n]) == 0 {
+			continue
+		}
+		h := out[n][0].Fn
+		obj, isF := h.Object().(*types.Func)
+		if !isF || obj.Exported() || h.Parent() != nil {
+			continue
+		}
+		uses := P.UsesOf(obj)
+		if len(uses) != 1 || !uses[0].AsCall || uses[0].Fn == nil || !reviewed[SSAFuncName(uses[0].Fn)] {
+			continue
+		}
+		caller := uses[0].Fn
+		call := uses[0].Instr.(ssa.CallInstruction)
+		var moved []TSite
+		okAll := true
+		for _, hk := range ts.TaskKeysSet(h) {
+			// which argument is that task
+			ai := -1
+			for j, hp := range h.Params {
+				if TaskKey(hp) == hk {
+					ai = j
+				}
+			}
+			if ai < 0 || ai >= len(call.Common().Args) {
+				okAll = false
+				continue
+			}
+			_, at := ts.Analyze(caller, TaskKey(call.Common().Args[ai]), ts.All)
+			entry := at[call.(ssa.Instruction)]
+			if entry == 0 {
+				entry = ts.All
+			}
+			sites, _ := ts.Analyze(h, hk, entry)
+			moved = append(moved, sites...)
+		}
+		if okAll && len(moved) > 0 {
+			c.touch(h)
+			delete(out, n)
+			out[SSAFuncName(caller)] = append(out[SSAFuncName(caller)], moved...)
+		}
+	}
 	return out
 }
 
